@@ -400,6 +400,17 @@ class Executor(Engine):
                 # maybe defined in exactly one subclass family
                 cands = [c for c in self.repo.subclasses(cname) if self.repo.find_property(c, n.attr) or self.class_has_field(c, n.attr)]
                 roots = [c for c in cands if not any(o2 != c and self.repo.is_subclass(c, o2) for o2 in cands)]
+                if len(roots) > 1 and not any(self.repo.find_property(c, n.attr) for c in cands):
+                    # a plain field declared by several unrelated subclasses (e.g. `.label` of SsbLabelJump and of
+                    # SsbForeignLabel): the heap component is per field name, so the read is the same for all of them
+                    g = z3.Or([self.is_instance(o.term, c) for c in roots])
+                    self.emit(f"L{n.lineno}.attr-class", f"`{ast.unparse(n.value)}` is one of {', '.join(sorted(roots))} when `.{n.attr}` is read (else AttributeError)", s1, g, "safety", n.lineno)
+                    s1.pc = s1.pc + (g,)
+                    fty = self.field_type(roots[0], n.attr)
+                    for c in roots[1:]:
+                        fty = T.join(fty, self.field_type(c, n.attr))
+                    out.append((s1, self.field_read(s1, o.term, n.attr, fty)))
+                    continue
                 if len(roots) != 1:
                     raise Unsupported(f"attribute {n.attr} not found on {cname}")
                 owner = roots[0]
